@@ -6,7 +6,7 @@ MODULES = ["TLVerif.Props.C10"]
 THEOREMS = ["TLVerif.Props.C10." + t for t in [
     "readTL1M_map_eq", "dictNormalize_of_ascending", "dictStore_strict", "strict_le",
     "bytes_variant_agrees_on_canonical", "bytes_variant_rewrites_equal",
-    "bytes_variant_canonical", "string_variant_canonical_on_canonical_input", "key_order_asymm", "canonical_guard_is_strict_ascent",
+    "bytes_variant_canonical", "string_variant_canonical_on_canonical_input", "key_order_asymm", "canonical_guard_is_strict_ascent", "bytes_variant_canonical_example",
     "strict_accepts_example", "canonical_example", "variants_differ_on_duplicate_key", "variants_differ_on_unsorted_keys"]]
 
 
